@@ -865,7 +865,6 @@ func genTx(r *lib.Rng, c cfg, a *arbiters, pool int) *txd {
 	return t
 }
 
-
 // ---------------------------------------------------------------- full ContextCheck replay
 
 // fullReplay drives the complete DefaultChecker.ContextCheck (references from a
